@@ -359,28 +359,28 @@ class MapOf(Sort):
 
 class ADTVal:
   """Native (CPython) representation of a Union value when contracts are evaluated natively."""
-  __slots__ = ('ctor', 'fields')
+  __slots__ = ('ctor', '_f')
 
   def __init__(self, ctor, **fields):
     self.ctor = ctor
-    self.fields = fields
+    self._f = fields
 
   def __getattr__(self, k):
-    if k in ('ctor', 'fields') or k.startswith('__'):
+    if k in ('ctor', '_f') or k.startswith('__'):
       raise AttributeError(k)
     try:
-      return self.fields[k]
+      return self._f[k]
     except KeyError:
       raise AttributeError(k)
 
   def __eq__(self, o):
-    return isinstance(o, ADTVal) and self.ctor == o.ctor and self.fields == o.fields
+    return isinstance(o, ADTVal) and self.ctor == o.ctor and self._f == o._f
 
   def __hash__(self):
-    return hash((self.ctor, tuple(sorted(self.fields.items(), key=lambda kv: kv[0]))))
+    return hash((self.ctor, repr(sorted(self._f.items(), key=lambda kv: kv[0]))))
 
   def __repr__(self):
-    return 'ADTVal(' + repr(self.ctor) + ''.join(f', {k}={v!r}' for k, v in self.fields.items()) + ')'
+    return 'ADTVal(' + repr(self.ctor) + ''.join(f', {k}={v!r}' for k, v in self._f.items()) + ')'
 
 
 class Ctor:
